@@ -202,6 +202,42 @@ theorem lookup_sound (sat : Nat → Bytes → Bool) (noRoute : Bool) (script : L
       rw [this] at hl
       simp at hl
 
+/-- **Priority, without any guard**: whenever a route handler runs, no registered route of the request
+method whose pattern matches the path beats it segment-wise (static over parameter over wildcard at the
+first differing segment). Shadowing can make the engine answer 404, it never makes it prefer a weaker
+pattern. -/
+theorem lookup_priority (sat : Nat → Bytes → Bool) (noRoute : Bool) (script : List Reg) (R : List Route)
+    (hR : specRoutes script = some R) (hN : normal R = true)
+    (req : Req) (hp : req.path.head? = some '/') (rid : Nat)
+    (h : (serve sat (build noRoute script) req).ran = some rid) :
+    ∃ r ∈ R, r.rid = rid ∧ r.method = req.method ∧
+      ∀ r' ∈ R, r'.method = req.method →
+        (matchPat (cutAny req.path).trail r'.pat (cutAny req.path).segs).isSome = true →
+        better r'.pat r.pat = false := by
+  rw [lemma_serve_lookup] at h
+  cases hl : lookupM sat (build noRoute script) req.method req.path with
+  | none =>
+    rw [hl] at h
+    simp only [notFound] at h
+    split at h
+    · cases h
+    · split at h <;> cases h
+  | some res =>
+    obtain ⟨lf, ctx⟩ := res
+    rw [hl] at h
+    simp only [served, Option.some.injEq] at h
+    unfold lookupM at hl
+    by_cases hm : req.method ∈ stdMethods
+    · rw [treeOf_build noRoute script R hR req.method hm] at hl
+      by_cases hf : R.filter (·.method = req.method) = []
+      · simp [hf] at hl
+      · simp only [hf, if_false, Option.bind_some] at hl
+        obtain ⟨r, hr, hrm, hlf, hmax⟩ := getRoute_max sat R (lemma_normalR R hN) req.method req.path hp lf ctx hl
+        exact ⟨r, hr, by rw [← h, hlf]; rfl, hrm, hmax⟩
+    · have : treeOf (build noRoute script) req.method = none := by simp [treeOf, hm]
+      rw [this] at hl
+      simp at hl
+
 /-! ### the reference outcome meets the relational oracle the driver evaluates -/
 
 theorem lemma_mem_insertSorted (x y : Bytes) (l : List Bytes) : y ∈ insertSorted x l ↔ y = x ∨ y ∈ l := by
